@@ -288,6 +288,7 @@ theorem isF_self (p : Nat) : isF p p = 0 := by
 theorem quiet_pc {N : Nat} {p : Pc} (hr : rem p = 0) (hk : ∀ k, inR k p = 0) (hs : pcOk N p) :
     inArr p = false ∧ isWon p = false ∧ isPub p = false ∧ ∀ N', pcOk N' p := by
   cases p <;> simp [inArr, isWon, isPub, pcOk, rem] at *
+  case want u => omega
   case arr u => omega
   case «try» u c r m => have := hk r; simp [inR] at this
   case try2 u c r m => have := hk r; simp [inR] at this
@@ -313,7 +314,7 @@ theorem stepB_publish (s s' : St) (t a b : Nat) (ha : InvA s) (hi : InvB s)
         (t' = t ∧ (upd s.pc t (afterCall (s.aw t) u) t' = .polling ∨ upd s.pc t (afterCall (s.aw t) u) t' = .retn)) := by
       intro t'
       by_cases h : t' = t
-      · right; subst h; subst hu; refine ⟨rfl, ?_⟩; cases hh : s.aw t' <;> simp [upd, afterCall, hh]
+      · right; subst h; subst hu; refine ⟨rfl, ?_⟩; cases s.aw t' <;> simp [upd, afterCall]
       · left; exact ⟨by simp [upd, h], h⟩
     -- every thread is quiet in the new state
     have hquiet : ∀ t', rem (upd s.pc t (afterCall (s.aw t) u) t') = 0 ∧
